@@ -199,8 +199,11 @@ eval(struct expr *expr)
 		expr->u.binary.r = r;
 		switch (expr->op) {
 		case TADD:
-			if (r->kind == EXPRBINARY)
+			if (r->kind == EXPRBINARY) {
 				c = l, l = r, r = c;
+				expr->u.binary.l = l;
+				expr->u.binary.r = r;
+			}
 			/* fallthrough */
 		case TSUB:
 			if (r->kind != EXPRCONST)
